@@ -96,6 +96,9 @@ func OracleC08(e *Exec) (string, string) {
 	case o.Kind == 1:
 		return "login-redirect-without-persistence", "303 to login although nothing was persisted"
 	case o.Kind == 5:
+		if b := string(e.Rep.Body); strings.Contains(b, "<Response") || strings.Contains(b, "<form") || strings.Contains(b, "SAMLResponse") {
+			return "reply-concatenates-messages", fmt.Sprintf("an HTTP %d error reply also carries a SAML message (%d bytes)", e.Rep.Code, len(b))
+		}
 		return "", ""
 	case o.Kind == 2 || o.Kind == 3 || o.Kind == 4:
 		if e.Rep.Doc == nil {
@@ -215,6 +218,15 @@ func OracleC05(e *Exec) (string, string) {
 			signedTriple = true
 		}
 	}
+	// a signature can only "verify under the signing certificate registered" if one is registered for signing
+	canVerify := false
+	for _, ce := range e.S.SP.Certs {
+		if ce.Use == "" || ce.Use == "signing" {
+			canVerify = true
+		}
+	}
+	signedTriple = signedTriple && canVerify
+	signedDocOK := e.S.SignedDocOK && canVerify
 	// embedded signature value of the document acted on
 	embedded := e.Abs.Dec != nil && e.Abs.Dec.Signature != nil && e.Abs.Dec.Signature.SignatureValue.Text != ""
 	if binding == idp.RedirBinding {
@@ -227,15 +239,15 @@ func OracleC05(e *Exec) (string, string) {
 		if c[2] != relay {
 			return "persisted-other-relaystate", fmt.Sprintf("verified %q persisted %q", relay, c[2])
 		}
-		if embedded && !e.S.SignedDocOK {
+		if embedded && !signedDocOK {
 			return "accepted-bad-signature:embedded-over-redirect", "document carries an enveloped signature that does not verify; accepted over the Redirect binding"
 		}
 		return "", ""
 	}
-	if required && !(embedded && e.S.SignedDocOK) {
+	if required && !(embedded && signedDocOK) {
 		return "accepted-unsigned:post-required", "signing required, accepted a POST-binding request without a verifying enveloped signature"
 	}
-	if embedded && !e.S.SignedDocOK {
+	if embedded && !signedDocOK {
 		return "accepted-bad-signature:post", "enveloped signature does not verify"
 	}
 	if sig != "" && !signedTriple {
@@ -327,6 +339,6 @@ var rules = map[string]string{
 func Run(prop, dir, tier string, seed int64) error {
 	r := rand.New(rand.NewSource(seed))
 	sc := scenariosFor(prop, tier, r)
-	oracles := map[string][]oracleFn{"C08": {OracleC08}, "C06": {OracleC06}, "C05": {OracleC05}, "C02": {OracleC02}}
+	oracles := map[string][]oracleFn{"C08": {OracleC08, OracleC02}, "C06": {OracleC06}, "C05": {OracleC05}, "C02": {OracleC02}}
 	return runAll(prop, dir, tier, seed, sc, rules[prop], oracles[prop]...)
 }
